@@ -20,10 +20,64 @@ def run(ctx):
     ctx.guard(escape, ctx)
     ctx.guard(fresh, ctx)
     ctx.guard(stmt_ro, ctx)
+    ctx.guard(reiterable, ctx)
     ctx.assume('user code that mutates Association.source_keys / target_keys in place is outside the listed changes')
     return ('Escape classification of every statement-field argument in the populate_* passes (copied vs stored by reference, '
             'one call level deep), repository-wide scan for in-place mutators of reference-stored fields, freshness of every '
             'container field of MetaModel/MetaClass/Association/Link, scan for shared mutable class attributes and defaults.')
+
+
+ONE_SHOT = {'filter', 'map', 'zip', 'iter', 'reversed', 'enumerate', 'itertools.chain', 'itertools.islice', 'itertools.filterfalse',
+            'itertools.starmap', 'itertools.takewhile', 'itertools.dropwhile', 'itertools.zip_longest', 'chain', 'islice'}
+
+
+def _one_shot(e):
+    if isinstance(e, ast.GeneratorExp):
+        return 'a generator expression'
+    if isinstance(e, ast.Call) and dotted(e.func) in ONE_SHOT:
+        return '%s(...)' % dotted(e.func)
+    return None
+
+
+def reiterable(ctx):
+    '''the statement objects and loader fields are re-read by EVERY build: none of them may hold a one-shot iterator (filter / map / zip /
+    generator ...), which the first build would exhaust, leaving later builds without that part of the input'''
+    from .common import resolve_locals
+    repo = ctx.repo
+    r = ctx.rule('C18-REITER', 'data kept by the loader and its statements can be read any number of times (no one-shot iterators)', floor=20,
+                 oracle='each build contains exactly the input accepted up to it')
+    n = 0
+    for cls in repo.classes('xtuml.load'):
+        for m in cls.body:
+            if not isinstance(m, ast.FunctionDef):
+                continue
+            for st in ast.walk(m):
+                if not isinstance(st, (ast.Assign, ast.AugAssign)):
+                    continue
+                targets = st.targets if isinstance(st, ast.Assign) else [st.target]
+                for t in targets:
+                    if isinstance(t, ast.Attribute) and isinstance(t.value, ast.Name) and t.value.id == 'self':
+                        n += 1
+                        v = resolve_locals(m, st.value, pure_only=False)
+                        what = _one_shot(v) or _one_shot(st.value)
+                        q = 'xtuml.load:%s.%s' % (cls.name, m.name)
+                        r.check(what is None, '%s: self.%s holds re-readable data' % (q.split(':')[1], t.attr), st, construct=q, key='one-shot ' + t.attr,
+                                msg='%s stores %s in self.%s: the first build_metamodel() exhausts it, every later build from the same loader '
+                                    'sees it empty' % (q, what, t.attr))
+    # grammar actions hand their values to the statement constructors
+    for cls in repo.classes('xtuml.load'):
+        for m in cls.body:
+            if isinstance(m, ast.FunctionDef) and m.name.startswith('p_'):
+                for st in ast.walk(m):
+                    if isinstance(st, ast.Assign) and any(src(t) == 'p[0]' for t in st.targets):
+                        n += 1
+                        bad = [_one_shot(x) for x in ast.walk(st.value) if _one_shot(x)]
+                        r.check(not bad, '%s builds re-readable data' % m.name, st, construct='xtuml.load:%s.%s' % (cls.name, m.name), key='one-shot p[0]',
+                                msg='%s puts %s into the parse result, which is kept in loader.statements and read by every build' % (
+                                    m.name, bad[0] if bad else ''))
+    probe = ast.parse('self.attributes = filter(None, attributes)').body[0]
+    r.check(_one_shot(probe.value) is not None, 'detector self-test: filter(...) is recognised as one-shot', probe, construct='C18-REITER:probe', key='probe',
+            msg='the one-shot detector no longer recognises its positive example')
 
 
 def _mutable_stmt_fields(repo):
